@@ -13,6 +13,8 @@ import (
 	"strings"
 	"time"
 
+	"reservoir/config"
+	"reservoir/utils/duration"
 	"verifharness/e2elib"
 	"verifharness/emit"
 )
@@ -266,6 +268,31 @@ func main() {
 				}
 			}
 			env.Close()
+
+			// boundary configurations: memory budget 0 %, one lock shard, a 1-byte size limit, default lifetime 0
+			if !retry {
+				envB, err := e2elib.Start(e2elib.Options{Backend: backend, Dir: envDir + "-boundary", Shards: 1, MaxSize: 1, Tune: func(cfg *config.Config) {
+					cfg.Cache.Memory.MemoryBudgetPercent.Overwrite(0)
+					cfg.Proxy.CachePolicy.DefaultMaxAge.Overwrite(duration.Duration(0))
+				}})
+				if err != nil {
+					panic(err)
+				}
+				envB.Origin.SetHandler(func(req e2elib.OriginRequest, n int) e2elib.Answer {
+					return e2elib.NewAnswer(200, []byte("0123456789"), "Cache-Control: max-age=60", `ETag: "b1"`)
+				})
+				for i := 0; i < 8; i++ {
+					m := []string{"GET", "GET", "HEAD"}[i%3]
+					var hs []string
+					if i%4 == 3 {
+						hs = []string{"Range: bytes=2-5"}
+					}
+					raw := string(envB.PlainRequest(m, fmt.Sprintf("/boundary%d", i%3), hs, nil))
+					resp, err := envB.DoPlain([]byte(raw), m, 8*time.Second)
+					check(tcase{Stream: "boundary-config", Desc: backend + ": memory_budget_percent=0, lock_shards=1, max_cache_size=1, default_max_age=0", Raw: raw}, resp, err)
+				}
+				envB.Close()
+			}
 
 			// --- stream C: the same request mutations inside one CONNECT tunnel per request
 			envT, err := e2elib.Start(e2elib.Options{Backend: backend, Dir: envDir + "-tls", TLS: true, Shards: 2})
